@@ -70,7 +70,8 @@ func (c27) Gen(r *sim.Rng, tier string) *scn.Scn {
 	}
 	if r.Chance(1, 12) {
 		// hostile header: a size far beyond any limit, followed by a few bytes
-		s.Objects = append(s.Objects, scn.Object{Type: "raw-header", Size: 5<<20 + r.Intn(1000), Seed: r.U64()})
+		// (Note selects a size beyond what an int holds: 2^63, 2^63+k, 2^64-1, or a mid-range 2^40 / 2^32+3)
+		s.Objects = append(s.Objects, scn.Object{Type: "raw-header", Size: 5<<20 + r.Intn(1000), Seed: r.U64(), Note: []string{"", "", "2^63", "2^63+k", "2^64-1", "2^40", "2^32+3"}[r.Intn(7)]})
 	}
 	s.P["reader"] = int64(r.Intn(4)) // 0 bufio, 1 byte-at-a-time non-bufio, 2 bufio over eof-with-data source, 3 non-bufio chunked
 	s.P["maxchunk"] = int64([]int{1, 2, 3, 7, 64, 10000}[r.Intn(6)])
@@ -127,6 +128,9 @@ func (c27) Gen(r *sim.Rng, tier string) *scn.Scn {
 	return s
 }
 
+// c27Beyond stands for the end offset of a frame whose announced size lies beyond any stream.
+const c27Beyond = 1 << 40
+
 type c27Frame struct {
 	msg        proto.Message // nil for raw-header
 	wmsg       proto.Message // the value handed to MarshalTo, if it is not msg itself (a recycled value with the same content)
@@ -145,10 +149,22 @@ func c27Build(s *scn.Scn) ([]c27Frame, []byte) {
 		f := c27Frame{typ: o.Type, start: len(stream)}
 		if o.Type == "raw-header" {
 			f.size = uint64(o.Size)
+			switch o.Note {
+			case "2^63":
+				f.size = 1 << 63
+			case "2^63+k":
+				f.size = 1<<63 + uint64(o.Seed%1000)
+			case "2^64-1":
+				f.size = 1<<64 - 1
+			case "2^40":
+				f.size = 1 << 40
+			case "2^32+3":
+				f.size = 1<<32 + 3
+			}
 			stream = protowire.AppendVarint(stream, f.size)
 			f.hdr = len(stream) - f.start
 			stream = append(stream, sim.NewRng(o.Seed).Bytes(5)...)
-			f.end = f.start + f.hdr + int(f.size) // beyond the stream
+			f.end = c27Beyond // beyond the stream, whatever the size
 			frames = append(frames, f)
 			break // nothing can follow
 		}
@@ -299,7 +315,22 @@ func c27MaxSize(s *scn.Scn, frames []c27Frame) (opt int64, eff uint64) {
 	j := int(s.P["maxsize_frame"])
 	var sz int64
 	if j < len(frames) {
+		if frames[j].size > 16<<20 {
+			// an announced size in the giga- or exabytes: a limit derived from it (or no limit at all) would
+			// make the reader allocate that much, which is what the caller asked for and not this check's business
+			if mode == 1 && frames[j].size <= 1<<63-1 {
+				return 0, 4 << 20
+			}
+			if mode >= 2 {
+				return 0, 4 << 20
+			}
+		}
 		sz = int64(frames[j].size)
+	}
+	for _, f := range frames {
+		if mode == 1 && f.msg == nil && f.size > 16<<20 && f.size <= 1<<63-1 {
+			return 0, 4 << 20 // (see above: no unlimited reads of terabyte frames)
+		}
 	}
 	switch mode {
 	case 1:
@@ -367,7 +398,7 @@ func (c27) Run(s *scn.Scn, x *sim.Exec) {
 			ns := len(out.b)
 			out.b = append(out.b, stream[f.start:]...)
 			f.start = ns
-			f.end = ns + f.hdr + int(f.size)
+			f.end = c27Beyond
 			continue
 		}
 		f.start = len(out.b)
